@@ -986,6 +986,13 @@ func handleMessage(peer *Peer, m protocol.Message) error {
 		if !peer.canFast {
 			return ErrCannotFast
 		}
+		if peer.Info != nil {
+			if m.Index >= uint32(numPieces(peer)) {
+				return ErrRange
+			}
+		} else if m.Index >= maxPieces {
+			return ErrRange
+		}
 		if !isFast(peer, m.Index) {
 			peer.fast = append(peer.fast, m.Index)
 			atomic.StoreUint32(&peer.hasFast, 1)
